@@ -436,6 +436,15 @@ class SimNet:
             rec["result"] = "cancelled"
             self.fired("connect_cancelled")
             raise
+        if proto == "tcp" and isinstance(host, str):
+            # socket.getaddrinfo() encodes a str host with the idna codec before it resolves anything: a name with an
+            # empty or over-long label makes the real loop's connect raise UnicodeError (which is NOT an OSError)
+            try:
+                host.encode("idna")
+            except UnicodeError:
+                rec["result"] = "error"
+                self.fired("resolve_unicode_error")
+                raise
         if plan.error is not None:
             rec["result"] = "error"
             self.fired("connect_error")
